@@ -106,17 +106,13 @@ def dead_divrem(items):
     return False
 
 
-def division_dropped(items, src):
-    """the source has fewer division / remainder operators than the bytecode has div-* / rem-* instructions"""
-    n_ins = sum(1 for it in items if isinstance(it, (tuple, list)) and isinstance(it[0], str) and it[0].startswith(("div-", "rem-")))
-    n_src = len(re.findall(r" [/%]=? ", src))
-    return n_src < n_ins
+def has_division(items):
+    return any(isinstance(it, (tuple, list)) and isinstance(it[0], str) and it[0].startswith(("div-", "rem-")) for it in items)
 
 
 def nesting(method):
     f = set(method.get("features", ()))
-    return method.get("level", 0) >= 2 and bool(f & {"nested-loop", "cond:&&", "cond:||", "cond:&&&&", "cond:(&&)||", "early-return",
-                                                     "break", "switch:fallthrough"})
+    return method.get("level", 0) >= 2 and bool(f & {"nested", "nested-loop", "early-return", "break", "switch:fallthrough"})
 
 
 def classify(rec, method):
@@ -132,7 +128,7 @@ def classify(rec, method):
         if m and m.group(2) in NARROW and m.group(1) in ("int",) + NARROW and \
                 feats & {"int-to-byte", "int-to-short", "int-to-char"}:
             return "declared-type-of-another-definition"
-        if re.search(r"\(\s*(int|long|byte|short|char) v\d+(_\d+)? [^=]", src) and \
+        if re.search(r"[(,\s](int|long|byte|short|char) v\d+(_\d+)?\s*[,)\-+*/%&|^<>]", src) and \
                 ("expected" in msg or "not a statement" in msg or "illegal start" in msg):
             return "declaration-inside-expression"
         if MARKER in src:
@@ -147,8 +143,8 @@ def classify(rec, method):
     if st in ("differs", "hang"):
         exp, obs = rec.get("expected") or [], rec.get("observed") or []
         bad = [i for i in range(len(exp)) if exp[i] != obs[i]]
-        if st == "differs" and bad and all(exp[i] == "AE" for i in bad) and division_dropped(method["items"], src):
-            return "dead-division-removed"
+        if st == "differs" and bad and all(exp[i] == "AE" and obs[i] not in ("AE", "MISSING") for i in bad) and has_division(method["items"]):
+            return "division-not-a-side-effect"
         if MARKER in src:
             return "same-target-condition"
         if "nested-loop" in feats:
